@@ -1,5 +1,7 @@
 """Instantiate a TLC-generated solver scenario (specs/api/SolverScenario.tla) with seeded numbers,
 run the real solver under the tracer, return the trace. Runs inside worker processes."""
+import json
+
 import numpy as np
 
 from . import gen
@@ -7,7 +9,7 @@ from .oracle import problem as PB
 from .oracle import penalties as OP
 
 SIZES = {"tall": (40, 12, 0.3), "wide": (15, 30, 0.3), "corr98": (30, 20, 0.98),
-         "corr98wide": (15, 24, 0.98)}
+         "corr98wide": (15, 24, 0.98), "big": (60, 120, 0.9), "contrast": (40, 12, 0.3)}
 DESCENT_SOLVERS = {"AndersonCD", "ProxNewton", "GroupBCD", "GroupProxNewton", "MultiTaskBCD", "GramCD"}
 CERT_SOLVERS = DESCENT_SOLVERS | {"LBFGS"}
 NONCONVEX = {"MCPenalty", "WeightedMCPenalty", "SCAD", "BlockMCPenalty", "BlockSCAD", "L0_5", "L2_3",
@@ -29,11 +31,18 @@ def _weights(rng, kind, m):
 
 def build(sc, seed):
     """-> dict(prob, X_solver, y, df_desc, pen_desc, solver_kw, w_init, Xw_init, tol, flags)"""
-    rng = gen.rng_for(seed, sorted(sc.items()))
+    # canonical form: a scenario read back from a replay file (sorted keys) draws the same numbers
+    rng = gen.rng_for(seed, json.dumps(sc, sort_keys=True, default=str))
     n, p, rho = SIZES[sc["data"]]
     s, d, pk = sc["solver"], sc["datafit"], sc["penalty"]
     fi = bool(sc["fit_intercept"])
     X = gen.design(rng, n, p, rho=rho, density=0.5 if sc["storage"] == "csc" else 1.0)
+    if sc["data"] == "contrast":
+        # contrast / effect coding: entries on the lattice Z/8, every column sums EXACTLY to zero (the constant
+        # vector is in the null space of X^T)
+        X = np.round(X * 8) / 8
+        X[0, :] -= X.sum(axis=0)
+        X = np.asfortranarray(X)
     dg = sc.get("degen")
     if dg:
         n, p = {"tall": (20, 8), "wide": (6, 9), "single_feature": (12, 1), "single_group": (12, 5)}[dg["shape"]]
@@ -179,7 +188,7 @@ def build(sc, seed):
     tol = float(sc["tol"]) * scale
     # ---------------- solver knobs
     nb = OP.n_blocks(pen, p)
-    p0 = {"1": 1, "2": 2, "p": nb, "10p": 10 * nb}[sc["p0"]]
+    p0 = {"1": 1, "2": 2, "10": 10, "p": nb, "10p": 10 * nb}[sc["p0"]]
     kw = dict(tol=tol)
     if s in ("AndersonCD", "GroupBCD", "MultiTaskBCD"):
         kw.update(max_iter=sc["max_iter"], max_epochs=sc["max_epochs"], p0=p0, fit_intercept=fi,
@@ -205,6 +214,13 @@ def build(sc, seed):
     shape = (p + fi,) + ((T,) if T > 1 else ())
     if warm != "none":
         w = np.zeros(shape)
+        if warm == "on_degenerate":
+            dgc = (sc.get("degen") or {}).get("cols", [])
+            for jj, kind_ in enumerate(dgc[:p]):
+                if kind_ == "zero":     # well above tol also in coefficient units (fixpoint scores)
+                    w[jj] = (1.0 + 0.5 * jj) * max(1.0, 100 * tol)
+            if fi:
+                w[-1] = 0.2
         if warm == "infeasible":
             k = min(p, 5)
             idx = rng.choice(p, k, replace=False)
